@@ -84,3 +84,99 @@ func ZZ_C08_amode(a []int) {
 func ZZ_C08_smode(a []int) {
 	zzCutCompare(zzRefEncode(zzGen(zzShapeOf(a[1:]))), a[0])
 }
+
+// zzSched delivers b by a fixed schedule: kind 0: one byte per Read; 1: one
+// byte per Read with a (0, nil) read before each; 2: three bytes per Read;
+// 3: everything but the last byte, then the last byte together with io.EOF.
+type zzSched struct {
+	b     []byte
+	i     int
+	kind  int
+	empty bool
+}
+
+func (r *zzSched) Read(p []byte) (int, error) {
+	rest := len(r.b) - r.i
+	if rest == 0 {
+		return 0, io.EOF
+	}
+	if len(p) == 0 {
+		return 0, nil
+	}
+	n := 1
+	switch r.kind {
+	case 1:
+		r.empty = !r.empty
+		if r.empty {
+			return 0, nil
+		}
+	case 2:
+		n = 3
+	case 3:
+		n = rest - 1
+		if n < 1 {
+			n = 1
+		}
+	}
+	if n > len(p) {
+		n = len(p)
+	}
+	if n > rest {
+		n = rest
+	}
+	copy(p, r.b[r.i:r.i+n])
+	r.i += n
+	if r.kind == 3 && r.i == len(r.b) {
+		return n, io.EOF
+	}
+	return n, nil
+}
+
+// ZZ_C07_sched: a[0] = schedule kind, a[1:] = shape (also large frames).
+func ZZ_C07_sched(a []int) {
+	f := zzRefEncode(zzGen(zzShapeOf(a[1:])))
+	q1, e1 := ReadPacket(&zzContig{b: f})
+	q2, e2 := ReadPacket(&zzSched{b: f, kind: a[0]})
+	zzReach("sched")
+	zzAssert((e1 == nil) == (e2 == nil), "acceptance depends on how the stream is fragmented")
+	if e1 == nil && e2 == nil {
+		zzViewEq(zzSnap(q2), zzSnap(q1), "fragmentation changes the packet")
+	}
+	zzEmitU("err1", zzB2U(e1 != nil))
+	zzEmitU("err2", zzB2U(e2 != nil))
+}
+
+// ZZ_C08_bigcut: a large valid frame of shape a[1:] cut at positions around
+// the header, in the middle, around 16 384 and at the end; failure mode a[0].
+func ZZ_C08_bigcut(a []int) {
+	f := zzRefEncode(zzGen(zzShapeOf(a[1:])))
+	L := len(f)
+	cuts := []int{0, 1, 2, 3, 4, 5, 6, 8, 12, 20, L / 2, L - 2, L - 1}
+	for _, c := range []int{127, 128, 129, 16383, 16384, 16385, 16386, 16400} {
+		if c < L {
+			cuts = append(cuts, c)
+		}
+	}
+	e := &zzErr{id: 7}
+	for _, cut := range cuts {
+		if cut < 0 || cut >= L {
+			continue
+		}
+		r := &zzCut{b: f, cut: cut, mode: a[0], e: e}
+		q, err := ReadPacket(r)
+		zzAssert(err != nil, "a packet is returned although the stream ended or failed inside the frame")
+		if err == nil {
+			continue
+		}
+		zzAssert(q == nil, "a packet is returned together with an error")
+		if a[0] == 0 {
+			if cut == 0 {
+				zzAssert(errors.Is(err, io.EOF), "end of stream on a frame boundary is not reported as io.EOF")
+			}
+		} else {
+			zzAssert(errors.Is(err, e), "the reader's error is not reported (errors.Is)")
+		}
+	}
+	zzReach("bigcut")
+	zzEmitU("len", uint64(L))
+}
